@@ -256,6 +256,27 @@ Proof.
     destruct (dget k M2) as [u|] eqn:Eg; [apply M2_value in Eg; tauto | symmetry; apply M2_none; assumption].
   - exfalso. apply bij_new_rejects_iff in Ec. apply Ec. apply M2_vals_nodup.
 Qed.
+
+(** the composition is again a constructed bijection and a collision-free renaming of the same universe *)
+Theorem compose_full_lemma : exists c mc, bij_compose f x = Some c /\ WFb mc c /\ (forall k, In k U -> bget c k = bget f (bget x k)) /\ renamingP c U.
+Proof.
+  destruct compose_apply_lemma as (c & Hc & Happ).
+  assert (HM : bij_compose f x = bij_new M2).
+  { unfold bij_compose. f_equal. unfold M2, M1, l2, w. rewrite fold_cond_filter. reflexivity. }
+  rewrite HM in Hc. pose proof (wfb_of_new M2 c M2_keys_nodup Hc) as Wc.
+  exists c, M2. split; [rewrite HM; assumption|]. split; [assumption|]. split; [assumption|].
+  intros k v Hkv. apply (wf_map M2 c Wc) in Hkv. destruct Hkv as [Hin Hne].
+  apply (In_dget _ _ _ M2_keys_nodup) in Hin. apply M2_value in Hin. destruct Hin as [HkU Hv]. split; [assumption|].
+  destruct (in_dec Z.eq_dec v U) as [HvU|HvU]; [right | left; assumption].
+  apply dhas_true. specialize (Happ v HvU).
+  destruct (dget v (bmap c)) as [u|] eqn:Eg; [exists u; reflexivity|]. exfalso.
+  (* f[x[v]] = v = f[x[k]] with v <> k contradicts injectivity on U *)
+  assert (Hb : bget c v = v) by (unfold bget; rewrite Eg; reflexivity).
+  assert (E1 : bget f (bget x v) = bget f (bget x k)) by congruence.
+  assert (E2 : bget x v = bget x k).
+  { apply (bget_inj_on mf f (map (bget x) U) Wf Rf); [apply in_map; assumption | apply in_map; assumption | assumption]. }
+  apply Hne. symmetry. apply (bget_inj_on mx x U Wx Rx); assumption.
+Qed.
 End Compose.
 
 Theorem bij_compose_apply_unbounded_lemma mf mx f x U :
@@ -265,4 +286,35 @@ Theorem bij_compose_apply_unbounded_lemma mf mx f x U :
 Proof.
   intros Kf Kx Hf Hx R1 R2. pose proof (wfb_of_new mf f Kf Hf) as Wf. pose proof (wfb_of_new mx x Kx Hx) as Wx.
   apply (compose_apply_lemma mf mx f x U Wf Wx); [eapply renaming_P; eassumption | eapply renaming_P; eassumption].
+Qed.
+
+(** ---------- associativity, any alphabet ---------- *)
+Lemma renamingP_ext b V V' : (forall k, In k V <-> In k V') -> renamingP b V -> renamingP b V'.
+Proof. intros H R k v Hg. destruct (R k v Hg) as [H1 H2]. split; [apply H; assumption|]. destruct H2 as [H2|H2]; [left; intros Hc; apply H2; apply H; assumption | right; assumption]. Qed.
+
+Theorem bij_compose_assoc_unbounded_lemma mf mg mh f g h U :
+  NoDup (map fst mf) -> NoDup (map fst mg) -> NoDup (map fst mh) -> bij_new mf = Some f -> bij_new mg = Some g -> bij_new mh = Some h ->
+  renaming h U = true -> renaming g (image h U) = true -> renaming f (image g (image h U)) = true ->
+  exists gh fg a b, bij_compose g h = Some gh /\ bij_compose f g = Some fg /\ bij_compose f gh = Some a /\ bij_compose fg h = Some b /\
+    forall k, In k U -> bget a k = bget b k /\ bget a k = bget f (bget g (bget h k)).
+Proof.
+  intros Kf Kg Kh Hf Hg Hh R1 R2 R3.
+  pose proof (wfb_of_new mf f Kf Hf) as Wf. pose proof (wfb_of_new mg g Kg Hg) as Wg. pose proof (wfb_of_new mh h Kh Hh) as Wh.
+  pose proof (renaming_P mh h U Wh R1) as P1. pose proof (renaming_P mg g _ Wg R2) as P2. pose proof (renaming_P mf f _ Wf R3) as P3.
+  unfold image in *.
+  (* gh on U *)
+  destruct (compose_full_lemma mg mh g h U Wg Wh P1 P2) as (gh & mgh & Egh & Wgh & Agh & Pgh).
+  (* fg on V = image h U *)
+  destruct (compose_full_lemma mf mg f g (map (bget h) U) Wf Wg P2 P3) as (fg & mfg & Efg & Wfg & Afg & Pfg).
+  (* a = f @ gh on U: f must rename image gh U = image g (image h U) *)
+  assert (P3' : renamingP f (map (bget gh) U)).
+  { apply (renamingP_ext f (map (bget g) (map (bget h) U))); [|assumption]. intros k. rewrite map_map, !in_map_iff. split.
+    - intros (u & E & Hu). exists u. split; [rewrite Agh by assumption; assumption | assumption].
+    - intros (u & E & Hu). exists u. split; [rewrite <- Agh by assumption; assumption | assumption]. }
+  destruct (compose_full_lemma mf mgh f gh U Wf Wgh Pgh P3') as (a & ma & Ea & _ & Aa & _).
+  (* b = fg @ h on U *)
+  destruct (compose_full_lemma mfg mh fg h U Wfg Wh P1 Pfg) as (b & mb & Eb & _ & Ab & _).
+  exists gh, fg, a, b. repeat split; try assumption.
+  - rewrite (Aa k H), (Ab k H), (Agh k H). rewrite (Afg (bget h k)) by (apply in_map; assumption). reflexivity.
+  - rewrite (Aa k H), (Agh k H). reflexivity.
 Qed.
